@@ -194,10 +194,11 @@ void* Arena::_alloc_oneshot(size_t size) noexcept {
       return static_cast<void*>(ptr);
     }
 
+    // The block is too small - unlink it before it's freed so it's not reachable from the current block anymore.
     ManagedBlock* block_to_free = next;
-    cur_block->next = next;
-
     next = next->next;
+
+    cur_block->next = next;
     Arena_free(block_to_free);
   }
 
